@@ -52,6 +52,7 @@ class EngineHandover(EngineC):
     suffix = "-ho"
     ncases = (36, 600)
     PLAN = [("connection_unix.go", "entry:newStreamConn:fd;el.idx"),
+            ("acceptor_unix.go", "entry:accept0:fd,entry:accept:fd"),
             ("eventloop_unix.go", "socket.Dup,entry:register0:c.fd;el.idx,entry:close:c.fd;el.idx,entry:closeConns:el.idx")]
 
     def __init__(self):
